@@ -283,6 +283,9 @@ struct Obs {
     next: Option<Vec<SignerWithStake>>,
     cur_key: Option<String>,
     next_key: Option<String>,
+    /// the keys the two multi-signers compute themselves
+    cur_ms_key: Option<String>,
+    next_ms_key: Option<String>,
     next_parties: Option<Vec<usize>>,
     total_next: Option<u64>,
 }
@@ -314,7 +317,8 @@ fn observe(keys: &Keys, svc: &dyn EpochService, params: &Parameters, pm: &Protoc
     };
     let cs = slots(svc.protocol_multi_signer(), &cur);
     let ns = slots(svc.next_protocol_multi_signer(), &next);
-
+    let cur_ms_key = svc.protocol_multi_signer().ok().map(|m| avk_text(&m.compute_aggregate_verification_key()));
+    let next_ms_key = svc.next_protocol_multi_signer().ok().map(|m| avk_text(&m.compute_aggregate_verification_key()));
     let text = match (&cur, &next) {
         (Some(c), Some(n)) => format!(
             "c={};n={};ns=[{}];t={},{};ck={};nk={};cs={};nsl={}",
@@ -324,7 +328,7 @@ fn observe(keys: &Keys, svc: &dyn EpochService, params: &Parameters, pm: &Protoc
         ),
         _ => format!("ui;ck={};nk={}", ck, nk),
     };
-    Obs { text, cur, next, cur_key, next_key, next_parties, total_next: tn }
+    Obs { text, cur, next, cur_key, next_key, cur_ms_key, next_ms_key, next_parties, total_next: tn }
 }
 
 fn op_token(op: &Op) -> String {
@@ -492,6 +496,12 @@ fn main() {
                     sfails.push((class.into(), what));
                 }
             }
+            // ---- S1b: the multi-signers carry the reported keys
+            for (which, key, ms_key) in [("current", &o.cur_key, &o.cur_ms_key), ("next", &o.next_key, &o.next_ms_key)] {
+                if key != ms_key {
+                    sfails.push(("multi-signer-key-mismatch".into(), format!("{}: {}_aggregate_verification_key() = {:?} but the {} protocol multi-signer computes {:?}", at, which, key, which, ms_key)));
+                }
+            }
             // ---- S3: the reported sets are the registrations written for the epochs e-1 / e
             if let (Some(e), Some(cur), Some(next)) = (informed, &o.cur, &o.next) {
                 let want = |ep: u64| -> BTreeSet<(usize, usize, u64)> { written.iter().filter(|((x, _), _)| *x == ep).map(|((_, p), (k, s))| (*p + 1, *k, *s)).collect() };
@@ -553,40 +563,42 @@ fn main() {
 
     // ---- witnesses of the known findings, replayed on the real service every run -------------------------------------
     {
-        let mut env = rt.block_on(make_env("witness1", &params));
-        let svc = env.svc.clone();
-        let save = |env: &Env, e: u64, p: usize, k: usize, s: u64| { rt.block_on(env.vk_store.save_verification_key(Epoch(e), keys.signer(p, k, s))).unwrap(); };
+        let ok = |r: &anyhow::Result<()>| if r.is_ok() { "Ok" } else { "Err" };
+        let save = |env: &Env, e: u64, p: usize, k: usize, s: u64| { let _ = rt.block_on(env.vk_store.save_verification_key(Epoch(e), keys.signer(p, k, s))); };
         // (1) a registration arriving after inform_epoch, then update_next_signers_with_stake
+        let env = rt.block_on(make_env("witness1", &params));
+        let svc = env.svc.clone();
         save(&env, 1, 0, 0, 5);
         save(&env, 2, 0, 0, 5);
-        rt.block_on(async { svc.write().await.inform_epoch(Epoch(2)).await }).unwrap();
+        let r0 = rt.block_on(async { svc.write().await.inform_epoch(Epoch(2)).await });
         save(&env, 2, 1, 1, 6);
         let r = rt.block_on(async { svc.write().await.update_next_signers_with_stake().await });
         let (nws, ns, tn) = rt.block_on(async {
             let g = svc.read().await;
-            (g.next_signers_with_stake().unwrap().len(), g.next_signers().unwrap().len(), g.total_next_stakes_signers().unwrap())
+            (g.next_signers_with_stake().map(|l| l.len()).unwrap_or(0), g.next_signers().map(|l| l.len()).unwrap_or(0), g.total_next_stakes_signers().unwrap_or(0))
         });
-        sink.witness("C06-stale-next-signers", r.is_ok() && nws == 2 && (ns != 2 || tn != 11),
-            &format!("save(1,A,5) save(2,A,5) inform_epoch(2) save(2,B,6) update_next_signers_with_stake={}: next_signers_with_stake() has {} signers (total 11), next_signers() has {}, total_next_stakes_signers() = {}", if r.is_ok() { "Ok" } else { "Err" }, nws, ns, tn));
+        sink.witness("C06-stale-next-signers", r0.is_ok() && r.is_ok() && nws == 2 && (ns != 2 || tn != 11),
+            &format!("save(1,A,5) save(2,A,5) inform_epoch(2)={} save(2,B,6) update_next_signers_with_stake={}: next_signers_with_stake() has {} signers (total 11), next_signers() has {}, total_next_stakes_signers() = {}", ok(&r0), ok(&r), nws, ns, tn));
         drop(svc);
-        let _ = &mut env;
+        drop(env);
         // (2) an update that cannot build the next multi-signer keeps the previous key next to the new list
-        let mut env2 = rt.block_on(make_env("witness2", &params));
+        let env2 = rt.block_on(make_env("witness2", &params));
         let svc = env2.svc.clone();
         save(&env2, 1, 0, 0, 5);
         save(&env2, 2, 0, 0, 5);
-        rt.block_on(async { svc.write().await.inform_epoch(Epoch(2)).await }).unwrap();
-        rt.block_on(async { svc.write().await.precompute_epoch_data().await }).unwrap();
+        let r0 = rt.block_on(async { svc.write().await.inform_epoch(Epoch(2)).await });
+        let r1 = rt.block_on(async { svc.write().await.precompute_epoch_data().await });
         save(&env2, 2, 1, 0, 6); // party B arrives with party A's key
         let r = rt.block_on(async { svc.write().await.update_next_signers_with_stake().await });
         let (nws, key) = rt.block_on(async {
             let g = svc.read().await;
-            (g.next_signers_with_stake().unwrap().clone(), g.next_aggregate_verification_key().ok().map(avk_text))
+            (g.next_signers_with_stake().cloned().unwrap_or_default(), g.next_aggregate_verification_key().ok().map(avk_text))
         });
         let builds = SignerBuilder::new(&nws, &params).is_ok();
-        sink.witness("C06-stale-after-failed-update", r.is_err() && nws.len() == 2 && key.is_some() && !builds,
-            &format!("save(1,A,5) save(2,A,5) inform_epoch(2) precompute save(2,B with A's key,6) update_next_signers_with_stake={}: next_signers_with_stake() has {} signers (SignerBuilder::new on them: {}), next_aggregate_verification_key() = {:?}", if r.is_ok() { "Ok" } else { "Err" }, nws.len(), if builds { "Ok" } else { "Err" }, key));
-        let _ = &mut env2;
+        sink.witness("C06-stale-after-failed-update", r0.is_ok() && r1.is_ok() && r.is_err() && nws.len() == 2 && key.is_some() && !builds,
+            &format!("save(1,A,5) save(2,A,5) inform_epoch(2)={} precompute={} save(2,B with A's key,6) update_next_signers_with_stake={}: next_signers_with_stake() has {} signers (SignerBuilder::new on them: {}), next_aggregate_verification_key() = {:?}", ok(&r0), ok(&r1), ok(&r), nws.len(), if builds { "Ok" } else { "Err" }, key));
+        drop(svc);
+        drop(env2);
     }
     sink.finish();
 }
